@@ -133,6 +133,8 @@ type area struct {
 	ifaces  map[string]string              // interface type of a variable -> the (world-backed) struct type whose translated methods it is called with
 	fatals  map[string]bool                // calls that end the process: the function stops with Panicked (PErrorf <format> 0)
 	wsets   map[string]string              // "<receiver type>.<field>.<field>": g.a.b = e -> (coq e w)
+	lmaps   map[string]string              // LOCAL map variables kept as pure values: Go map type -> (put k v m) of m[k] = v
+	lmuts   map[string]string              // "<Go type>.<Method>": x.M(args) on a LOCAL x changes it in place: let x := (coq x args)
 	fresh   map[string]int                 // function -> index of a pointer argument that every caller in the package must
 	                                       // pass as a fresh composite literal &T{...} (precondition of the store discipline)
 }
@@ -1510,19 +1512,28 @@ func (t *translator) exprK(e ast.Expr, ev *env, want string, k func(string) stri
 	}
 	if c, ok := e.(*ast.CallExpr); ok {
 		if name, sg := t.sigOf(c, ev); sg != nil && !sg.pure {
-			// F(args) as a value: its outcome is propagated
-			if sg.nouts > 0 || sg.ids > 0 || len(sg.results) != 1 || len(c.Args) != len(sg.params) {
+			// F(args) as a value: its outcome is propagated (erased arguments are not passed)
+			callArgs := c.Args
+			if len(sg.drop) == len(c.Args) {
+				callArgs = nil
+				for i, a := range c.Args {
+					if !sg.drop[i] {
+						callArgs = append(callArgs, a)
+					}
+				}
+			}
+			if sg.nouts > 0 || sg.ids > 0 || len(sg.results) != 1 || len(callArgs) != len(sg.params) {
 				unsup(c, "call of %s inside an expression", name)
 			}
-			terms := make([]string, len(c.Args))
+			terms := make([]string, len(callArgs))
 			var build func(i int) string
 			build = func(i int) string {
-				if i == len(c.Args) {
+				if i == len(callArgs) {
 					v, pv := t.fresh("v"), t.fresh("p")
 					return "(match " + name + " " + strings.Join(terms, " ") + " w with\n | (Returned " + v + ", w) => " + k(v) +
 						"\n | (Panicked " + pv + ", w) => (Panicked " + pv + ", w)\n | (OutOfFuel, w) => (OutOfFuel, w)\n end)"
 				}
-				return t.exprK(c.Args[i], ev, sg.params[i], func(a string) string {
+				return t.exprK(callArgs[i], ev, sg.params[i], func(a string) string {
 					terms[i] = a
 					return build(i + 1)
 				})
@@ -1681,6 +1692,15 @@ func assigned(stmts []ast.Stmt, ev *env) []*variable {
 					set[id.Name] = true
 				}
 			}
+			if c, ok := s.X.(*ast.CallExpr); ok && curArea != nil {
+				if sel, isSel := c.Fun.(*ast.SelectorExpr); isSel {
+					if id, isId := sel.X.(*ast.Ident); isId {
+						if v, isVar := ev.index[id.Name]; isVar && curArea.lmuts[v.typ+"."+sel.Sel.Name] != "" {
+							set[id.Name] = true
+						}
+					}
+				}
+			}
 			// f(x): a function value may write through x
 			if c, ok := s.X.(*ast.CallExpr); ok && len(c.Args) == 1 {
 				if f, isVar := c.Fun.(*ast.Ident); isVar && ev.index[f.Name] != nil {
@@ -1836,6 +1856,21 @@ func (t *translator) block(stmts []ast.Stmt, ev *env, lc *loopCtx, top bool, k f
 				unsup(c.Fun, "function value expression that can panic")
 			}
 			return "(let " + arg.Name + " := " + cl.coq + " " + t.pure(c.Fun, ev, "") + " " + arg.Name + " in\n" + cont(ev) + ")"
+		}
+		if sel, isSel := c.Fun.(*ast.SelectorExpr); isSel {
+			if id, isId := sel.X.(*ast.Ident); isId {
+				if lv, isLocal := ev.index[id.Name]; isLocal && t.a.lmuts[lv.typ+"."+sel.Sel.Name] != "" {
+					// x.M(args) on a local x that the method changes in place
+					args := ""
+					for _, a := range c.Args {
+						if t.mayPanic(a, ev) {
+							unsup(c, "argument of %s.%s that can panic", lv.typ, sel.Sel.Name)
+						}
+						args += " " + t.pure(a, ev, "")
+					}
+					return "(let " + id.Name + " : " + t.coqType(x, lv.typ) + " := " + t.a.lmuts[lv.typ+"."+sel.Sel.Name] + " " + id.Name + args + " in\n" + cont(ev) + ")"
+				}
+			}
 		}
 		if mfn, isMut := t.a.muts[exprKey(c.Fun)]; isMut && len(c.Args) == 1 {
 			arg, isId := c.Args[0].(*ast.Ident)
@@ -2138,6 +2173,14 @@ func (t *translator) assign(x *ast.AssignStmt, ev *env, cont func(*env) string) 
 					unsup(x, "map assignment whose key or value can panic")
 				}
 				return "(let w := " + t.a.refmaps[lv.typ] + " " + gid.Name + " " + t.pure(ix.Index, ev, "") + " " + t.pure(x.Rhs[0], ev, "") + " w in\n" + cont(ev) + ")"
+			}
+			if lv, isLocal := ev.index[gid.Name]; isLocal && t.a.lmaps[lv.typ] != "" {
+				// m[k] = v on a local map (a pure value): never panics on a made map
+				if t.mayPanic(ix.Index, ev) || t.mayPanic(x.Rhs[0], ev) {
+					unsup(x, "map assignment whose key or value can panic")
+				}
+				return "(let " + gid.Name + " : " + t.coqType(x, lv.typ) + " := " + t.a.lmaps[lv.typ] + " " + t.pure(ix.Index, ev, "") + " " +
+					t.pure(x.Rhs[0], ev, "") + " " + gid.Name + " in\n" + cont(ev) + ")"
 			}
 			if lv, isLocal := ev.index[gid.Name]; isLocal {
 				// xs[i] = e on a local slice: index, then value, then the bounds check
@@ -3273,6 +3316,17 @@ func (t *translator) function(fd *ast.FuncDecl, spec fnSpec) {
 				if c, isCall := a.X.(*ast.CallExpr); isCall && len(c.Args) == 1 && t.a.muts[exprKey(c.Fun)] != "" {
 					if id, isId := c.Args[0].(*ast.Ident); isId {
 						t.reassigned[id.Name] = true
+					}
+				}
+				if c, isCall := a.X.(*ast.CallExpr); isCall {
+					if sel, isSel := c.Fun.(*ast.SelectorExpr); isSel {
+						if id, isId := sel.X.(*ast.Ident); isId {
+							for k := range t.a.lmuts {
+								if strings.HasSuffix(k, "."+sel.Sel.Name) {
+									t.reassigned[id.Name] = true
+								}
+							}
+						}
 					}
 				}
 				if c, isCall := a.X.(*ast.CallExpr); isCall && len(c.Args) == 1 {
